@@ -46,6 +46,9 @@ def cells(tier, seed):
         for solute, solvent in [('NaCl', 'water')] + ([('DMSO', 'water')] if tier == 'thorough' else []):
             out.append({'id': f"dilute/{cu.replace('/', '_')}/{solute}", 'fn': 'h_dilute', 'round': 'lite', 'max_paths': 200,
                         'params': {'cu': cu, 'solute': solute, 'solvent': solvent}})
+        # a third component that takes up volume (an enzyme, stored in activity units)
+        out.append({'id': f"dilute/{cu.replace('/', '_')}/NaCl+lipase", 'fn': 'h_dilute', 'round': 'lite', 'max_paths': 200,
+                    'params': {'cu': cu, 'solute': 'NaCl', 'solvent': 'water', 'bystander': 'lipase'}})
     for form in ['M+total_mL', 'g_g+total_g', 'qty_g+total_mL']:
         out.append({'id': f"create_solution/{form}", 'fn': 'h_solution', 'round': 'lite', 'max_paths': 200,
                     'params': {'form': form}})
@@ -54,6 +57,8 @@ def cells(tier, seed):
     for unit in (['uL', 'mg'] if tier == 'quick' else ['uL', 'mg', 'mmol', 'U']):
         out.append({'id': f"plate/c->row/{unit}", 'fn': 'h_plate', 'round': 'lite', 'max_paths': 400, 'cost': 6,
                     'params': {'unit': unit}})
+    out.append({'id': "bake/create_container+transfer", 'fn': 'h_bake_created', 'round': 'lite', 'max_paths': 300, 'cost': 5,
+                'params': {}})
     out.append({'id': "bake/transfer+fill_to", 'fn': 'h_bake', 'round': 'lite', 'max_paths': 300, 'cost': 5, 'params': {}})
     for second in ['solution', 'transfer']:
         out.append({'id': f"bake/draw+{second}", 'fn': 'h_bake_draw', 'round': 'lite', 'max_paths': 300, 'cost': 5,
@@ -193,7 +198,7 @@ def h_fill_to(h):
 
 def h_dilute(h):
     p = h.p
-    lib = Lib(h, [p['solute'], p['solvent']])
+    lib = Lib(h, [p['solute'], p['solvent']] + ([p['bystander']] if p.get('bystander') else []))
     solute, solvent = lib[p['solute']], lib[p['solvent']]
     cap = h.real('cap', Fr(1, 1000), 10**8)
     C = h.env.Container
@@ -202,6 +207,8 @@ def h_dilute(h):
     n_w = h.real('c.solvent', 1, 10**6)
     c.contents[solute] = n_s
     c.contents[solvent] = n_w
+    if p.get('bystander'):
+        c.contents[lib[p['bystander']]] = h.real('c.bystander', 1, 10**5)
     set_volume(h, lib, c)
     h.assume(h.ge(n_s * 100, n_w))           # mole fraction >= ~1e-2: the 1e-6 ratio tolerance stays < 1e-4 relative
     h.assume(h.le(lib.volume_storage(c.contents), cap))
@@ -389,6 +396,40 @@ def h_after_remove(h):
         h.fail('fill-after-remove:accepted', f"filling the space freed by remove() up to the capacity was refused: {e}")
         return
     _valid_state(h, 'fill-after-remove', r)
+
+
+def h_bake_created(h):
+    """a container created by a recipe step has the declared capacity: its initial contents and every later step into it
+    are feasible iff they fit"""
+    C, Recipe = h.env.Container, h.env.Recipe
+    lib = Lib(h, ['water', 'NaCl'])
+    water = lib['water']
+    A = mk_container(h, lib, 'A', ['water'], lo=10, hi=10**6)
+    vA = lib.volume_storage(A.contents)               # uL
+    cap = h.real('cap', 1, 10**6)
+    q0 = h.real('q0', 1, 10**6)
+    q = h.real('q', 0, 10**5)
+    r = Recipe().uses(A)
+    sl = h.rs(8 * h.ulp)
+    try:
+        made = r.create_container('C', f"{cap} uL", [(water, f"{q0} uL")])
+        r.transfer(A, made, f"{q} uL")
+        res = r.bake()
+    except Exception as e:  # noqa: BLE001
+        if _classify(h, e, 'bake'):
+            h.require('bake:refusal-justified', h.any_of([h.gt(q0, cap), h.gt(q, vA), h.gt(q0 + q, cap)]),
+                      detail="the initial contents and the transfer both fit into the created container, yet it was refused")
+        return
+    h.outcome = 'ok'
+    h.require('bake:acceptance-justified', h.all_of([h.le(q0, cap, sl), h.le(q, vA, sl), h.le(q0 + q, cap, sl)]),
+              detail="a container created with a capacity holds more than that after bake")
+    for c in res.values():
+        _valid_state(h, 'bake', c)
+    mv = res['C'].max_volume
+    if isinstance(mv, float) and mv == float('inf'):
+        h.fail('bake:created-capacity', "the created container has unlimited capacity after bake")
+    else:
+        h.require('bake:created-capacity', h.eq(mv, cap, sl), detail="capacity of the created container after bake")
 
 
 def h_bake_draw(h):
